@@ -35,6 +35,10 @@ CHECKS = {
    technique="exhaustive enumeration of change lists x size limits x limit-change schedules through the real ChunkedChanges iterator and chunk_range",
    text="All start in 0..=2, spans up to 6 (thorough 8), every subset of [start,last] as present seqs, small/large size per change, 8 limits incl. 0, limit changed after each of the first 2 (thorough 3) chunks to any limit; tiling, containment, order and termination are asserted on every produced chunk list; chunk_range for all lo<=hi<=30 (60) x chunk 1..=12.",
    note="Sizes are two representative byte sizes; the iterator only compares the running sum with the limit. chunk size 0 for chunk_range is excluded (panics in std step_by; the only call site passes 10)."),
+ "C09": dict(engine="codec", design="§5 C09",
+   technique="exhaustive bounded input enumeration of the real decoders in crash-isolated child processes with a counting allocator; grammar-generated round trips; byte-level differential against the extension's crsql_pack_columns",
+   text="Every byte string of length <= 2 (thorough 3) and, for ~150 seed frames generated from a grammar of all message/changeset/need/value variants, every truncation, every single-byte substitution and every 1/4/8-byte window overwritten with 8 boundary values in both endiannesses (thorough: pairs of positions too), through UniPayload/BiPayload/SyncMessage decoding and unpack_columns: outcome must be Ok or Err (no panic, no abort), peak and largest allocation <= 64 KiB + 256 x input length, every decoded text valid UTF-8 and every decoded value re-encodable. Round trip for every seed; pack_columns == crsql_pack_columns byte for byte and unpack(pack(x)) == x for all 1-2 (thorough 3) column tuples from a pool of extreme values plus 255 columns.",
+   note="The 100 MiB frame space is covered only in these neighbourhoods. NaN is excluded from the extension differential (SQLite binds NaN as NULL). Harness built with release semantics (no overflow checks / debug assertions), as deployed."),
  "C18": dict(engine="members", design="§5 C18",
    technique="explicit-state BFS (stateright) whose transition function calls the real Members::{add_member,remove_member,add_rtt}; invariants from a fold-by-newest reference model evaluated in every reachable state",
    text="All reachable states of the member table for 2 actors (3 and 2 identity timestamps), every assignment of address/cluster to identities (64 tables quick, 256 thorough), up/down notifications in any admissible order, RTT samples {1,(40),1000} ms for current and former addresses; presence, identity (ts/address/cluster) and ring/ring0 invariants in every state; shortest counterexample re-derived by FIFO search. 3.4e5 states quick, 3.0e7 thorough, to fix-point.",
@@ -81,6 +85,7 @@ def main():
         },
         "engines": [
             {"name": "booked", "path": "harness/src/bin/booked.rs", "serves_properties": ["C02"], "kind_free_text": "BFS to fix-point over real bookkeeping + replay-BFS over a real node"},
+            {"name": "codec", "path": "harness/src/bin/codec.rs", "serves_properties": ["C09"], "kind_free_text": "exhaustive bounded input enumeration in child processes"},
             {"name": "members", "path": "harness/src/bin/members.rs", "serves_properties": ["C18"], "kind_free_text": "stateright BFS over the real Members methods"},
             {"name": "repl", "path": "harness/src/bin/repl.rs", "serves_properties": ["C01", "C03", "C05", "C06"], "kind_free_text": "replay-from-history explicit-state BFS over 2-3 real nodes"},
             {"name": "pure", "path": "harness/src/bin/pure.rs", "serves_properties": ["C04", "C08"], "kind_free_text": "exhaustive small-scope enumeration of pure functions against set models"},
